@@ -463,6 +463,23 @@ theorem clean_entries {e : Bool} : ∀ (es : List (List NameItem × List SepItem
     exact ⟨clean_tree v h.2.2.2.1, clean_entries r h.2.2.2.2⟩
 end
 
+/-- several top-level spelled trees in a row (a content / object stream without operators): their
+    bytes lex to the concatenated token sequences; whatever follows must be white space or a delimiter -/
+theorem lex_seq : ∀ (ts : List STree), wfList ts → LexUnit (bytesList ts) (serList (valueList ts)) true
+  | [], _ => by simpa [bytesList, valueList, serList] using LexUnit.nil.weaken true
+  | t :: r, h => by
+    simp only [wfList, wfListE] at h
+    obtain ⟨ht, hr, hadj⟩ := h
+    simp only [bytesList, valueList, serList]
+    have u1 := lex_tree t ht
+    have u2 := lex_seq r hr
+    exact LexUnit.append u1 u2 (fun hreg d hd => by
+      cases r with
+      | nil => simpa [bytesList] using hd rfl
+      | cons t2 r2 =>
+        have := hadj hreg (by simp) [d]
+        simpa using this)
+
 /-! ### an indirect object `n g obj … endobj` -/
 
 /-- the spelling of an indirect object around a spelled tree -/
